@@ -15,7 +15,7 @@ X = ("fd00::1", 5683)
 P = ("fd00::2", 5683)
 Y = ("fd00::21", 5683)
 Z = ("fd00::22", 5683)
-ACTIVITIES = ["await_ack", "await_separate", "blockwise_put", "observe_client", "server_slow", "server_fast", "server_observe", "backlog", "non_request", "blockwise_get"]
+ACTIVITIES = ["await_ack", "await_separate", "blockwise_put", "observe_client", "server_slow", "server_fast", "server_observe", "backlog", "non_request", "blockwise_get", "server_slow_retoken", "server_observe_renew"]
 
 
 def make_site(net, name):
@@ -165,6 +165,14 @@ def run_once(scn, shutdown_at, collect_instants=False):
                     net.at(t, xreq, "silent" if j == 0 else "ok%d" % j)
             elif k == "server_slow":
                 net.at(t, p.send, X, R.msg(R.CON if a.get("con", True) else R.NON, R.GET, 0x6000 + len(net.wire), b"\xd1", [(R.O_URI_PATH, "slow5")]))
+            elif k == "server_slow_retoken":
+                # the peer re-uses the token of a request whose handler is still running for a new request (new MID)
+                net.at(t, p.send, X, R.msg(R.CON, R.GET, 0x6400 + len(net.wire), b"\xd4", [(R.O_URI_PATH, "slow5")]))
+                net.at(t + 0.4, p.send, X, R.msg(R.CON, R.GET, 0x6480 + len(net.wire), b"\xd4", [(R.O_URI_PATH, "slow5")]))
+            elif k == "server_observe_renew":
+                # RFC 7641: an observation is renewed by a new request with the same token
+                net.at(t, p.send, X, R.msg(R.CON, R.GET, 0x6300, b"\xd5", [(R.O_OBSERVE, 0), (R.O_URI_PATH, "obs")]))
+                net.at(t + 0.9, p.send, X, R.msg(R.CON, R.GET, 0x6301, b"\xd5", [(R.O_OBSERVE, 0), (R.O_URI_PATH, "obs")]))
             elif k == "server_fast":
                 net.at(t, p.send, X, R.msg(R.CON, R.GET, 0x6100 + len(net.wire), b"\xd2", [(R.O_URI_PATH, "fast")]))
             elif k == "server_observe":
